@@ -87,13 +87,13 @@ are the count component; hence `C02.osu_next_eq_prefix` (machine `next` = one-sh
 `C02.osu_len_initial` speak about the concrete calculation with nothing abstract left. -/
 theorem osu_pipeline_is_abstract_oneshot (A : Ar R S) (E : Rosu.SliderEvents.Arith R) (fuel : Nat) (st : Settings R)
     (take : Nat) (objs : List (PObj R S)) (raw : List (Obj R S)) (p : Prepared R S)
-    (hr : newObjs A E fuel objs = .ok raw) (hp : prepareAll A st take raw = .ok p) (ht : 1 ≤ take)
-    (hd : p.diffObjs.length = raw.length - 1) :
+    (hr : newObjs A E fuel objs = .ok raw) (hp : prepareAll A st take raw = .ok p) (ht : 1 ≤ take) :
     osuDifficulty A E fuel st take objs =
       (((osuOneShot (concreteSkills p.diffObjs p.cfg fuel) (raw.map summary) take).2).bind fun sk =>
         .ok (evalAttrs st p.counts sk)) ∧
     p.counts.toG = (osuOneShot (concreteSkills p.diffObjs p.cfg fuel) (raw.map summary) take).1 := by
   obtain ⟨hl, _⟩ := newObjs_spec A E fuel objs raw hr
+  have hd := prepared_diffObjs_length A st take raw p hp
   obtain ⟨p0, hp0, _⟩ := prepareAll_take A st take raw
   rw [hp0] at hp
   simp only [Rosu.SkillOps.Res.ok.injEq] at hp
